@@ -179,5 +179,33 @@ pub fn c13(n: u64, seed: u64, full_f32: bool) {
         t.print();
     }
     tk.print();
+    // trigonometric wrappers: sin/cos/tan read the angle in its own unit, the inverse functions
+    // return it in the unit of the type (f64, against std on the radian value)
+    let tw = Tally::new("trig_wrappers_units");
+    let mut s2 = seed ^ 0x7716;
+    let d2r = std::f64::consts::PI / 180.0;
+    let close = |a: f64, b: f64| (a - b).abs() <= 1e-12 * (1.0 + a.abs().max(b.abs()));
+    for i in 0..(n.min(20000) + 16) {
+        let u = (splitmix(&mut s2) >> 11) as f64 / (1u64 << 53) as f64;
+        let x = if i < 4 { [-1.0, 1.0, 0.0, 0.5][i as usize] } else { 2.0 * u - 1.0 };   // in [-1, 1]
+        let y = ((splitmix(&mut s2) >> 11) as f64 / (1u64 << 53) as f64 - 0.5) * 20.0;
+        let ang = (u - 0.5) * 1440.0;                                                       // degrees
+        tw.rec(close(Deg::<f64>::acos(x).0, x.acos() / d2r) && close(Rad::<f64>::acos(x).0, x.acos())
+            && close(Deg::<f64>::asin(x).0, x.asin() / d2r) && close(Rad::<f64>::asin(x).0, x.asin())
+            && close(Deg::<f64>::atan(y).0, y.atan() / d2r) && close(Rad::<f64>::atan(y).0, y.atan())
+            && close(Deg::<f64>::atan2(y, x).0, y.atan2(x) / d2r) && close(Rad::<f64>::atan2(y, x).0, y.atan2(x)),
+            || format!("inverse trig units: x={:e} y={:e}: Deg::acos={:e} (want {:e}) Deg::asin={:e} Deg::atan={:e} Deg::atan2={:e}",
+                       x, y, Deg::<f64>::acos(x).0, x.acos() / d2r, Deg::<f64>::asin(x).0, Deg::<f64>::atan(y).0, Deg::<f64>::atan2(y, x).0));
+        let r = ang * d2r;
+        let (sd, cd) = Deg(ang).sin_cos();
+        let (sr, cr) = Rad(r).sin_cos();
+        tw.rec(close(Deg(ang).sin(), r.sin()) && close(Deg(ang).cos(), r.cos()) && close(Rad(r).sin(), r.sin()) && close(Rad(r).cos(), r.cos())
+            && close(sd, r.sin()) && close(cd, r.cos()) && close(sr, r.sin()) && close(cr, r.cos())
+            && (r.cos().abs() < 1e-3 || (close(Deg(ang).tan(), r.tan()) && close(Rad(r).tan(), r.tan()) && close(Deg(ang).sec(), 1.0 / r.cos()) && close(Rad(r).sec(), 1.0 / r.cos())))
+            && (r.sin().abs() < 1e-3 || (close(Deg(ang).csc(), 1.0 / r.sin()) && close(Rad(r).csc(), 1.0 / r.sin())
+                && (r.cos().abs() < 1e-3 || (close(Deg(ang).cot(), 1.0 / r.tan()) && close(Rad(r).cot(), 1.0 / r.tan()))))),
+            || format!("forward trig units: Deg({:e}): sin={:e} cos={:e} (want {:e}, {:e})", ang, Deg(ang).sin(), Deg(ang).cos(), r.sin(), r.cos()));
+    }
+    tw.print();
     c13_probes();
 }
